@@ -348,24 +348,60 @@ def run_cem(case):
         el = s32[idx]
         wm = alpha * mean + (1 - alpha) * el.mean(0)
         wv = alpha * var + (1 - alpha) * el.var(0)
-        scale = np.maximum(np.abs(wm), 1e-6)
-        return (np.allclose(nm, wm, rtol=1e-4, atol=1e-5 * scale.max())
-                and np.allclose(nv, wv, rtol=1e-3, atol=1e-6 * max(wv.max(), 1e-12)))
+        # float32 evaluation: values near |x| carry an absolute error of about
+        # one ulp(|x|); the variance of tightly clustered elites is a
+        # difference of nearly equal numbers
+        u = np.spacing(np.max(np.abs(el), axis=0).astype(np.float32)).astype(
+            np.float64)
+        spread = np.max(np.abs(el - el.mean(0)), axis=0)
+        k = max(4, len(idx))  # rounding of a float32 mean over k values
+        tol_m = k * u + 1e-5 * np.abs(wm)
+        tol_v = 4 * k * spread * u + (k * u) ** 2 + 1e-3 * np.abs(wv) + \
+            1e-6 * np.abs(alpha * var)
+        return bool(np.all(np.abs(nm - wm) <= tol_m)
+                    and np.all(np.abs(nv - wv) <= tol_v))
 
     import itertools
     okm = False
-    combos = itertools.islice(itertools.combinations(maybe.tolist(), need), 300)
-    for c in combos:
-        if matches(np.concatenate([sure, np.asarray(c, dtype=int)]).astype(int)):
+    # candidate elite sets under ties: XLA's total order (+0.0 above -0.0, then
+    # lower index), NumPy's stable order, then up to 300 other combinations
+    f64 = fit.astype(np.float64)
+    xla_order = np.lexsort((np.arange(n_pop), np.signbit(f64), -f64))
+    for idx in (xla_order[:n_elite], order[:n_elite]):
+        if matches(np.asarray(idx, dtype=int)):
             okm = True
             break
+    if not okm:
+        combos = itertools.islice(itertools.combinations(maybe.tolist(), need), 300)
+        n_tried = 0
+        for c in combos:
+            n_tried += 1
+            if matches(np.concatenate([sure, np.asarray(c, dtype=int)]).astype(int)):
+                okm = True
+                break
+        if not okm and n_tried >= 300:
+            # too many tied sets to enumerate: necessary condition only - the
+            # tied part of the elite sum lies between the sums of the `need`
+            # smallest and largest tied candidates (per dimension)
+            tied = np.sort(s32[maybe], axis=0)
+            lo = (s32[sure].sum(0) + tied[:need].sum(0)) / n_elite
+            hi = (s32[sure].sum(0) + tied[len(tied) - need:].sum(0)) / n_elite
+            wlo = alpha * mean + (1 - alpha) * np.minimum(lo, hi)
+            whi = alpha * mean + (1 - alpha) * np.maximum(lo, hi)
+            slack = 1e-4 * (np.abs(wlo) + np.abs(whi)) + 1e-6
+            if np.all(nm >= wlo - slack) and np.all(nm <= whi + slack):
+                okm = True
+                res.see("cem_tie_sets_not_enumerable")
     if not okm:
         res.violation("C16/cem/update_not_from_elites",
                       f"updated mean/variance are not alpha*old + (1-alpha)*"
                       f"statistics of the {n_elite} best candidates",
                       {"fitness": fit, "n_elite": n_elite, "alpha": alpha})
         return res
-    if np.any(nm < lb32 - ulp) or np.any(nm > ub32 + ulp):
+    # a float32 mean over n_elite values that all sit on a bound can leave it by
+    # accumulated rounding (about one ulp per few summands)
+    ulp_m = ulp * (1 + n_elite / 4.0)
+    if np.any(nm < lb32 - ulp_m) or np.any(nm > ub32 + ulp_m):
         res.violation("C16/cem/mean_out_of_bounds", "updated mean left the bounds",
                       {"mean": nm, "lb": lb32, "ub": ub32})
         return res
